@@ -1,20 +1,223 @@
 package main
 
-// runControls evaluates the always-run control fixtures of the shared primitives (see
-// controls_*.go). They prove on every run that the primitives the rules are built from still
-// fire on a violating shape and stay silent on the accepted idioms.
+import (
+	"fmt"
+	"go/ast"
+	"go/importer"
+	"go/parser"
+	"go/token"
+	"go/types"
+
+	"golang.org/x/tools/go/ssa"
+	"golang.org/x/tools/go/ssa/ssautil"
+)
+
+// runControls evaluates the always-run control fixtures of the shared primitives. They prove on
+// every run that the primitives the rules are built from still fire on a violating shape and stay
+// silent on the accepted idioms. A misbehaving control is a broken analyser (exit 2).
 func runControls() []controlResult {
 	var out []controlResult
-	for _, c := range controlTable {
-		ok, detail := c.run()
-		out = append(out, controlResult{Name: c.name, OK: ok, Detail: detail})
+	add := func(name string, ok bool, detail string) {
+		out = append(out, controlResult{Name: name, OK: ok, Detail: detail})
 	}
+	u64, i32, str := types.Typ[types.Uint64], types.Typ[types.Int32], types.Typ[types.String]
+	inj := func(f string, ts ...types.Type) bool { ok, _ := formatInjective(f, ts); return ok }
+	add("A8 refuses %d%d%d%s", !inj("%d%d%d%s", types.Typ[types.Uint32], u64, types.Typ[types.Uint32], str), "adjacent variable-width fields")
+	add("A8 accepts %d:%d:%d:%s", inj("%d:%d:%d:%s", types.Typ[types.Uint32], u64, types.Typ[types.Uint32], str), "separated, free text last")
+	add("A8 accepts %s:%d right to left", inj("%s:%d", str, u64), "digits field bounded by ':' from the right")
+	add("A8 accepts PP:%d:%s", inj("PP:%d:%s", i32, str), "left to right")
+	add("A8 refuses %s:%d:%s", !inj("%s:%d:%s", str, i32, str), "free text on both ends")
+	add("A8 accepts PD:%d:%s (constant prefix substituted)", inj("PD:%d:%s", i32, str), "left to right")
+	add("operator negation", negOp(token.LSS) == token.GEQ && negOp(token.EQL) == token.NEQ && swapOp(token.LEQ) == token.GEQ, "!(a<b) is a>=b; a<=b is b>=a")
+
+	fns, err := buildFixture()
+	if err != nil {
+		add("fixture builds", false, err.Error())
+		return out
+	}
+	retCmp := func(name string) string {
+		fn := fns[name]
+		if fn == nil {
+			return "missing " + name
+		}
+		s := ""
+		forEachInstr(fn, func(in ssa.Instruction) {
+			if ret, ok := in.(*ssa.Return); ok && len(ret.Results) == 1 {
+				if bo, ok := ret.Results[0].(*ssa.BinOp); ok {
+					if lc, ok := canonLinCmp(normLit(condEdge{bo, true})); ok {
+						s = lc.String()
+					}
+				}
+			}
+		})
+		return s
+	}
+	a, b, c := retCmp("eq1"), retCmp("eq2"), retCmp("eq3")
+	add("A4 linear forms: a+1==b, b-1==a, b==a+1 are one form", a != "" && a == b && b == c, a+" | "+b+" | "+c)
+	lt, le := retCmp("lt"), retCmp("le")
+	add("A4 linear forms: a<b differs from a<=b", lt != "" && le != "" && lt != le, lt+" | "+le)
+	gt := retCmp("gt")
+	add("A4 linear forms: b>a is a<b", gt == lt, gt+" | "+lt)
+
+	// guarded store: every path to a map update carries 'absent' or the comparison
+	guardOK := func(name string) (bool, string) {
+		fn := fns[name]
+		if fn == nil {
+			return false, "missing"
+		}
+		all := true
+		n := 0
+		forEachInstr(fn, func(in ssa.Instruction) {
+			mu, ok := in.(*ssa.MapUpdate)
+			if !ok {
+				return
+			}
+			n++
+			paths, _ := reachingLits(fn, nil, mu)
+			for _, p := range paths {
+				good := false
+				for _, l := range p {
+					if l.Kind == "ok" && !l.Pol {
+						good = true
+					}
+					if lc, ok := canonLinCmp(l); ok && lc.Op == token.LSS && lc.L.K == 0 && len(lc.L.Terms) == 2 && lc.L.Terms["$2.a"] == -1 {
+						good = true // existing.a - incoming.a < 0
+					}
+				}
+				all = all && good
+			}
+		})
+		return all && n > 0, fmt.Sprintf("%d stores", n)
+	}
+	g1, d1 := guardOK("guardGood")
+	add("A4 reaching conditions: early-return idiom accepted", g1, d1)
+	g2, d2 := guardOK("guardSwitch")
+	add("A4 reaching conditions: switch-form accepted", g2, d2)
+	g3, d3 := guardOK("guardBad")
+	add("A4 reaching conditions: reversed comparison refused", !g3, d3)
+	g4, d4 := guardOK("guardMissing")
+	add("A4 reaching conditions: unguarded path refused", !g4, d4)
+
+	// must-reach with defer
+	mr := func(name string) bool {
+		fn := fns[name]
+		if fn == nil {
+			return false
+		}
+		var first ssa.Instruction
+		for _, c := range callsNamed(fn, "lock") {
+			first = c.(ssa.Instruction)
+		}
+		if first == nil {
+			return false
+		}
+		ok, _ := mustReach(first, func(in ssa.Instruction) bool {
+			c, isC := in.(ssa.CallInstruction)
+			return isC && calleeName(c) == "unlock"
+		}, false)
+		return ok
+	}
+	add("A3 must-reach: defer unlock counts on every exit", mr("pairDefer"), "")
+	add("A3 must-reach: explicit unlock on each exit accepted", mr("pairExplicit"), "")
+	add("A3 must-reach: early return without unlock refused", !mr("pairLeak"), "")
 	return out
 }
 
-type control struct {
-	name string
-	run  func() (bool, string)
+const fixtureSrc = `package fix
+
+type T struct{ a, b uint64 }
+
+func (t *T) lock()   {}
+func (t *T) unlock() {}
+
+func eq1(t *T) bool { return t.a+1 == t.b }
+func eq2(t *T) bool { return t.b-1 == t.a }
+func eq3(t *T) bool { return t.b == t.a+1 }
+func lt(t *T) bool  { return t.a < t.b }
+func le(t *T) bool  { return t.a <= t.b }
+func gt(t *T) bool  { return t.b > t.a }
+
+func guardGood(m map[string]*T, k string, n *T) {
+	old, ok := m[k]
+	if !ok {
+		m[k] = n
+		return
+	}
+	if old.a < n.a {
+		m[k] = n
+	}
 }
 
-var controlTable []control
+func guardSwitch(m map[string]*T, k string, n *T) {
+	old, ok := m[k]
+	switch {
+	case !ok:
+		m[k] = n
+	case n.a > old.a:
+		m[k] = n
+	}
+}
+
+func guardBad(m map[string]*T, k string, n *T) {
+	old, ok := m[k]
+	if !ok || old.a > n.a {
+		m[k] = n
+	}
+}
+
+func guardMissing(m map[string]*T, k string, n *T) {
+	old, ok := m[k]
+	if ok && old.b == 0 {
+		return
+	}
+	m[k] = n
+}
+
+func pairDefer(t *T, x int) int {
+	t.lock()
+	defer t.unlock()
+	if x > 0 {
+		return 1
+	}
+	return 0
+}
+
+func pairExplicit(t *T, x int) int {
+	t.lock()
+	if x > 0 {
+		t.unlock()
+		return 1
+	}
+	t.unlock()
+	return 0
+}
+
+func pairLeak(t *T, x int) int {
+	t.lock()
+	if x > 0 {
+		return 1
+	}
+	t.unlock()
+	return 0
+}
+`
+
+func buildFixture() (map[string]*ssa.Function, error) {
+	fset := token.NewFileSet()
+	f, err := parser.ParseFile(fset, "fix.go", fixtureSrc, 0)
+	if err != nil {
+		return nil, err
+	}
+	pkg := types.NewPackage("fix", "fix")
+	spkg, _, err := ssautil.BuildPackage(&types.Config{Importer: importer.Default()}, fset, pkg, []*ast.File{f}, ssa.InstantiateGenerics)
+	if err != nil {
+		return nil, err
+	}
+	out := map[string]*ssa.Function{}
+	for name, m := range spkg.Members {
+		if fn, ok := m.(*ssa.Function); ok {
+			out[name] = fn
+		}
+	}
+	return out, nil
+}
